@@ -116,6 +116,20 @@ impl ObjectWrite for Nested {
     }
 }
 
+/// two levels: the conversion creates a Nested, whose conversion creates the leaf: `<< /Child m >>`, m = `<< /Child c >>`, c = the value
+struct Nested2 { child: Primitive, refs: std::sync::Mutex<Option<(PlainRef, PlainRef)>> }
+impl ObjectWrite for Nested2 {
+    fn to_primitive(&self, update: &mut impl Updater) -> pdf::error::Result<Primitive> {
+        let m = update.create(Nested { child: self.child.clone(), child_ref: std::sync::Mutex::new(None) })?;
+        let mr = m.get_ref().get_inner();
+        let c = m.child_ref.lock().unwrap().expect("leaf");
+        *self.refs.lock().unwrap() = Some((mr, c));
+        let mut d = Dictionary::new();
+        d.insert("Child", Primitive::Reference(mr));
+        Ok(Primitive::Dictionary(d))
+    }
+}
+
 fn listing<OC, SC, L>(bytes: Vec<u8>, mk: &dyn Fn() -> (OC, SC, L), out: &mut Vec<Vec<u8>>)
 where OC: Cache<pdf::error::Result<AnySync, Arc<PdfError>>>, SC: Cache<pdf::error::Result<Arc<[u8]>, Arc<PdfError>>>, L: Log
 {
@@ -151,7 +165,7 @@ where OC: Cache<pdf::error::Result<AnySync, Arc<PdfError>>>, SC: Cache<pdf::erro
     let mut prev_bytes = base;
     for line in fld(f, 2).split(|&c| c == b'\n') {
         if line.is_empty() { continue; }
-        let toks: Vec<&[u8]> = if line.first() == Some(&b'C') || line.first() == Some(&b'N') { line.splitn(2, |&c| c == b' ').collect() } else { line.splitn(3, |&c| c == b' ').collect() };
+        let toks: Vec<&[u8]> = if line.first() == Some(&b'C') || line.first() == Some(&b'N') || line.first() == Some(&b'M') { line.splitn(2, |&c| c == b' ').collect() } else { line.splitn(3, |&c| c == b' ').collect() };
         // value designator: canon text, or `@ref` = whatever resolving ref yields now (may be an in-file stream)
         let val = |t: &[u8], st: &Storage<Vec<u8>, OC, SC, L>, handed: &[PlainRef]| -> std::result::Result<Primitive, String> {
             if t.first() == Some(&b'@') {
@@ -175,6 +189,19 @@ where OC: Cache<pdf::error::Result<AnySync, Arc<PdfError>>>, SC: Cache<pdf::erro
                         let c = rc.child_ref.lock().unwrap().ok_or("nochild")?;
                         handed.push(r); handed.push(c);
                         out.push(rtext(r)); out.push(rtext(c));
+                    }
+                    Err(e) => out.push(etext(&e)),
+                }
+            }
+            b"M" => {
+                // two levels of conversion-created objects: parent, middle, leaf
+                let v = val(toks[1], &st, &handed)?;
+                match st.create(Nested2 { child: v, refs: std::sync::Mutex::new(None) }) {
+                    Ok(rc) => {
+                        let r = rc.get_ref().get_inner();
+                        let (m, c) = rc.refs.lock().unwrap().ok_or("nochild")?;
+                        handed.push(r); handed.push(m); handed.push(c);
+                        out.push(rtext(r)); out.push(rtext(m)); out.push(rtext(c));
                     }
                     Err(e) => out.push(etext(&e)),
                 }
@@ -237,6 +264,7 @@ trait Doc {
     fn create_p(&mut self, v: Primitive) -> pdf::error::Result<PlainRef>;
     /// create(Nested { child: v }): (parent, child)
     fn create_n(&mut self, v: Primitive) -> pdf::error::Result<(PlainRef, PlainRef)>;
+    fn create_m(&mut self, v: Primitive) -> pdf::error::Result<(PlainRef, PlainRef, PlainRef)>;
     fn update_p(&mut self, r: PlainRef, v: Primitive) -> pdf::error::Result<PlainRef>;
     fn promise_p(&mut self) -> PromisedRef<Primitive>;
     fn fulfill_p(&mut self, p: PromisedRef<Primitive>, v: Primitive) -> pdf::error::Result<PlainRef>;
@@ -253,6 +281,11 @@ where OC: Cache<pdf::error::Result<AnySync, Arc<PdfError>>>, SC: Cache<pdf::erro
         let rc = self.st.create(Nested { child: v, child_ref: std::sync::Mutex::new(None) })?;
         let c = rc.child_ref.lock().unwrap().expect("child");
         Ok((rc.get_ref().get_inner(), c))
+    }
+    fn create_m(&mut self, v: Primitive) -> pdf::error::Result<(PlainRef, PlainRef, PlainRef)> {
+        let rc = self.st.create(Nested2 { child: v, refs: std::sync::Mutex::new(None) })?;
+        let (m, c) = rc.refs.lock().unwrap().expect("children");
+        Ok((rc.get_ref().get_inner(), m, c))
     }
     fn update_p(&mut self, r: PlainRef, v: Primitive) -> pdf::error::Result<PlainRef> { self.st.update(r, v).map(|rc| rc.get_ref().get_inner()) }
     fn promise_p(&mut self) -> PromisedRef<Primitive> { self.st.promise::<Primitive>() }
@@ -272,6 +305,11 @@ where OC: Cache<pdf::error::Result<AnySync, Arc<PdfError>>>, SC: Cache<pdf::erro
         let c = rc.child_ref.lock().unwrap().expect("child");
         Ok((rc.get_ref().get_inner(), c))
     }
+    fn create_m(&mut self, v: Primitive) -> pdf::error::Result<(PlainRef, PlainRef, PlainRef)> {
+        let rc = self.file.create(Nested2 { child: v, refs: std::sync::Mutex::new(None) })?;
+        let (m, c) = rc.refs.lock().unwrap().expect("children");
+        Ok((rc.get_ref().get_inner(), m, c))
+    }
     fn update_p(&mut self, r: PlainRef, v: Primitive) -> pdf::error::Result<PlainRef> { self.file.update(r, v).map(|rc| rc.get_ref().get_inner()) }
     fn promise_p(&mut self) -> PromisedRef<Primitive> { self.file.promise::<Primitive>() }
     fn fulfill_p(&mut self, p: PromisedRef<Primitive>, v: Primitive) -> pdf::error::Result<PlainRef> { self.file.fulfill(p, v).map(|rc| rc.get_ref().get_inner()) }
@@ -288,7 +326,7 @@ fn run_doc<D: Doc>(d: &mut D, ops: &[u8]) -> std::result::Result<Vec<(Vec<u8>, O
     let mut saves = vec![];
     for line in ops.split(|&c| c == b'\n') {
         if line.is_empty() { continue; }
-        let toks: Vec<&[u8]> = if line.first() == Some(&b'C') || line.first() == Some(&b'N') { line.splitn(2, |&c| c == b' ').collect() } else { line.splitn(3, |&c| c == b' ').collect() };
+        let toks: Vec<&[u8]> = if line.first() == Some(&b'C') || line.first() == Some(&b'N') || line.first() == Some(&b'M') { line.splitn(2, |&c| c == b' ').collect() } else { line.splitn(3, |&c| c == b' ').collect() };
         let val = |t: &[u8], d: &D, handed: &[PlainRef]| -> std::result::Result<Primitive, String> {
             if t.first() == Some(&b'@') { d.resolve_p(refd(&t[1..], handed).ok_or("badref")?).map_err(|e| ekind(&e)) }
             else { uncanon(t).ok_or_else(|| "badvalue".to_string()) }
@@ -297,6 +335,7 @@ fn run_doc<D: Doc>(d: &mut D, ops: &[u8]) -> std::result::Result<Vec<(Vec<u8>, O
         match toks[0] {
             b"C" => { let v = val(toks[1], d, &handed)?; if let Ok(r) = d.create_p(v) { handed.push(r); } }
             b"N" => { let v = val(toks[1], d, &handed)?; if let Ok((r, c)) = d.create_n(v) { handed.push(r); handed.push(c); } }
+            b"M" => { let v = val(toks[1], d, &handed)?; if let Ok((r, m, c)) = d.create_m(v) { handed.push(r); handed.push(m); handed.push(c); } }
             b"U" => { let r = refd(toks[1], &handed).ok_or("badref")?; let v = val(toks[2], d, &handed)?; if let Ok(r) = d.update_p(r, v) { handed.push(r); } }
             b"P" => { let p = d.promise_p(); let r = p.get_inner(); handed.push(r); promises.push((r, Some(p))); }
             b"F" => {
@@ -480,7 +519,7 @@ pub fn dispatch(mode: &str, f: &[Vec<u8>]) -> Option<R> {
             let td = match st.load_storage_and_trailer() { Ok(t) => t, Err(e) => return Some(Err(ekind(&e))) };
             let mut trailer = match Trailer::from_primitive(Primitive::Dictionary(td), &st.resolver()) { Ok(t) => t, Err(e) => return Some(Err(ekind(&e))) };
             for line in fld(f, 2).split(|&c| c == b'\n') {
-                let toks: Vec<&[u8]> = if line.first() == Some(&b'C') || line.first() == Some(&b'N') { line.splitn(2, |&c| c == b' ').collect() } else { line.splitn(3, |&c| c == b' ').collect() };
+                let toks: Vec<&[u8]> = if line.first() == Some(&b'C') || line.first() == Some(&b'N') || line.first() == Some(&b'M') { line.splitn(2, |&c| c == b' ').collect() } else { line.splitn(3, |&c| c == b' ').collect() };
                 match toks[0] {
                     b"C" => { let _ = st.create(uncanon(toks[1])?); }
                     b"U" => { let _ = st.update(refd(toks[1], &[])?, uncanon(toks[2])?); }
